@@ -158,6 +158,19 @@ def check(ctx):
                 tbl[int(k[0].split(' ')[0])] = fold_in(et, n.ast.value)
             if not k[1] and k[0] == '0 < len(%s)' % et.params[1] and not any(kk[1] and kk[0].endswith('== len(%s)' % et.params[1]) for kk in g.fact_keys_at(n)):
                 tbl[0] = fold_in(et, n.ast.value)        # len(element) == 0 is kept as `not 0 < len(element)`
+    for n in [n for n in g.nodes if n.kind == 'return' and n.ast.value is not None]:
+        v = n.ast.value
+        src = None
+        if isinstance(v, ast.Call) and isinstance(v.func, ast.Attribute) and v.func.attr == 'get' and len(v.args) == 1 and norm(v.args[0]) == 'len(%s)' % et.params[1]:
+            src = v.func.value
+        elif isinstance(v, ast.Subscript) and norm(v.slice) == 'len(%s)' % et.params[1]:
+            src = v.value
+        if src is not None:                     # a length -> code lookup table
+            d = fold_in(et, src)
+            if not isinstance(d, dict) and isinstance(src, ast.Attribute) and et.cls is not None and src.attr in et.cls.consts:
+                d = fold_in(et, et.cls.consts[src.attr])
+            if isinstance(d, dict):
+                tbl.update(d)
     ctx.inst('R4', et, 'type-table', tbl == {0: 0, 1: 1, 3: 2, 7: 3}, 'element length -> type code table %s, expected {0:0, 1:1, 3:2, 7:3}' % tbl)
     p4 = m.func(TRJ, 'Poly4D.pack')
     seq = [norm(s.value) for s in p4.node.body if isinstance(s, ast.AugAssign)]
